@@ -77,6 +77,9 @@ func main() {
 		os.Exit(check(os.Args[2], "thorough", modeExplore, from, to))
 	case "replay":
 		os.Exit(replay(os.Args[2]))
+	case "pcase":
+		i, _ := strconv.ParseUint(os.Args[2], 10, 64)
+		probeCase(i)
 	case "probe":
 		probe(os.Args[2:])
 	case "needs":
